@@ -84,8 +84,10 @@ is not the LAST character of the format (it subsumes the first: no marker at all
 text is that of `xcItems items`, the items with the first QB_XC of the literal text replaced by '|'.
 MISSING for the full statement: a format that ENDS in the marker (`xcPatch` then shortens the
 stored format by one and `location--`; the encoder lemmas of Lemmas/SerBig.lean are stated for
-stores at the end of the data written so far, which is false for that one byte) — exercised by
-the differential stream and corpus only.
+stores at the end of the data written so far, which is false for that one byte).
+NOW PROVED in Props/C14Full.lean: `roundtrip_marker_last` (that case, through the merge simulation
+of Lemmas/SerRoundLast*.lean) and `roundtrip` (the full statement, all three cases combined), plus
+the list-level overflow statement `ser_overflow_returns_max`.
 Hypotheses that are part of the statement, not gaps:
   * `MiniFits`: each conversion with its `*` values written out fits the decoder's 20-byte mini
     format (class of KF-C14-mini-format);
